@@ -63,8 +63,46 @@ def config(draw, tier, mode):
             'seed': draw(st.integers(0, 99))}
 
 
+@st.composite
+def long_config(draw, tier, mode):
+    """Long inputs: lengths just below, at and above powers of two, exact multiples of the overlap-save step, a few
+    thousand samples. Only the matrix-free methods (the dense forms would need n**2 entries)."""
+    K = draw(st.sampled_from([1, 2, 3, 4, 5, 8, 16, 17, 40]))
+    fft_default = int(2 ** (1 + math.ceil(math.log2(K)))) if K > 1 else 2
+    fkind = draw(st.sampled_from(['none', 'none', '2K', 'pow2', 'odd']))
+    fft = {'none': None, '2K': 2 * K, 'pow2': 4 * fft_default, 'odd': 2 * K + 1}[fkind]
+    step = (fft or fft_default) - 2 * (K - 1)
+    kind = draw(st.sampled_from(['near_pow2', 'near_pow2', 'multiple_of_step', 'multiple_of_step', 'any']))
+    if kind == 'near_pow2':
+        n = 2 ** draw(st.integers(10, 13)) + draw(st.integers(-2 * K - 1, 3))
+    elif kind == 'multiple_of_step' and step >= 1:
+        lo = -(-1000 // step)
+        n = step * draw(st.integers(lo, lo + 6000 // step))
+    else:
+        n = draw(st.integers(1000, 9000))
+    n = max(1, n)
+    dt = draw(st.sampled_from(['float32', 'float64'])) if mode == 'x64' else 'float32'
+    band = [draw(st.sampled_from([1, -1, 2, -2, 0.5, -0.5, 0.25, 3, 1.5])) for _ in range(K)]
+    return {'n': n, 'K': K, 'dtype': dt, 'bdtype': dt, 'fft_size': fft, 'xbatch': [], 'band': band, 'invalid': None,
+            'bad_method': 'x', 'seed': draw(st.integers(0, 99)), 'only': ['fft', 'overlap_save', 'direct'], 'long': True}
+
+
 def strategy(tier, mode):
-    return config(tier, mode)
+    c = config(tier, mode)
+    lc = long_config(tier, mode)
+    return st.integers(0, 5).flatmap(lambda i: lc if i == 0 else c)
+
+
+def _toeplitz_apply_shifts(band, x):
+    """Matrix-free reference for one row: y[i] = band[0] x[i] + sum_k band[k] (x[i-k] + x[i+k])."""
+    band = np.asarray(band, dtype=np.float64)
+    x = np.asarray(x, dtype=np.float64)
+    n = x.shape[-1]
+    y = band[0] * x
+    for k in range(1, min(len(band), n)):
+        y[k:] += band[k] * x[:-k]
+        y[:-k] += band[k] * x[k:]
+    return y
 
 
 def sweep(tier, mode, shard, nshards):
@@ -120,7 +158,7 @@ def check(recipe, mode):
     eps = float(np.finfo(np.float32 if 'float32' in (dt, bdt) else np.float64).eps)
     sband = float(np.abs(band_np).sum(axis=-1).max())
     xs = [_x(xshape, recipe['seed'], t) for t in range(2)]
-    refs = [ops.toeplitz_apply(band_np, x) for x in xs]
+    refs = [_toeplitz_apply_shifts(band_np, x) if recipe.get('long') else ops.toeplitz_apply(band_np, x) for x in xs]
     classes = []
     methods = recipe.get('only') or METHODS
     for method in methods:
@@ -184,6 +222,8 @@ def check(recipe, mode):
         tol2 = 8 * (math.log2(max(2, n + 2 * K + 64)) + 4) * eps * sband2 * float(np.abs(xs[0]).max(initial=0.0)) + 1e-30
         if np.abs(y2 - ops.toeplitz_apply(band2_np, xs[0])).max(initial=0.0) > tol2:
             raise Violation('value:second-operator', f'product of a second operator with the same layout and other band values is wrong (n={n}, K={K}, method {op2.method})')
+    if recipe.get('long'):
+        classes.append('long_input')
     if K > n:
         classes.append('K>n')
     if K == 1:
